@@ -1,0 +1,76 @@
+// Copyright 2020-2025 Buf Technologies, Inc.
+//
+// Licensed under the Apache License, Version 2.0 (the "License");
+// you may not use this file except in compliance with the License.
+// You may obtain a copy of the License at
+//
+//      http://www.apache.org/licenses/LICENSE-2.0
+//
+// Unless required by applicable law or agreed to in writing, software
+// distributed under the License is distributed on an "AS IS" BASIS,
+// WITHOUT WARRANTIES OR CONDITIONS OF ANY KIND, either express or implied.
+// See the License for the specific language governing permissions and
+// limitations under the License.
+
+package storageos_test
+
+import (
+	"context"
+	"io/fs"
+	"os"
+	"path/filepath"
+	"syscall"
+	"testing"
+
+	"github.com/bufbuild/buf/private/pkg/storage"
+	"github.com/bufbuild/buf/private/pkg/storage/storageos"
+	"github.com/stretchr/testify/require"
+)
+
+func TestWalkReturnsErrorOfWalkFunc(t *testing.T) {
+	t.Parallel()
+	dirPath := t.TempDir()
+	for _, name := range []string{"a.proto", "b.proto", "c.proto"} {
+		require.NoError(t, os.WriteFile(filepath.Join(dirPath, name), []byte("x"), 0600))
+	}
+	bucket, err := storageos.NewProvider().NewReadWriteBucket(dirPath)
+	require.NoError(t, err)
+	for _, walkFuncErr := range []error{
+		&fs.PathError{Op: "open", Path: "out/a.proto", Err: syscall.ENOENT},
+		fs.ErrNotExist,
+		filepath.SkipDir,
+	} {
+		var visited []string
+		err = bucket.Walk(context.Background(), "", func(objectInfo storage.ObjectInfo) error {
+			visited = append(visited, objectInfo.Path())
+			return walkFuncErr
+		})
+		require.Equal(t, walkFuncErr, err)
+		require.Equal(t, []string{"a.proto"}, visited)
+	}
+	// A prefix that does not exist is still a no-op.
+	require.NoError(t, bucket.Walk(context.Background(), "nonexistent", func(storage.ObjectInfo) error {
+		return fs.ErrInvalid
+	}))
+}
+
+func TestWalkSkipsEntryRemovedDuringWalk(t *testing.T) {
+	t.Parallel()
+	dirPath := t.TempDir()
+	for _, name := range []string{"a.proto", "b.proto", "c.proto"} {
+		require.NoError(t, os.WriteFile(filepath.Join(dirPath, name), []byte("x"), 0600))
+	}
+	bucket, err := storageos.NewProvider().NewReadWriteBucket(dirPath)
+	require.NoError(t, err)
+	var visited []string
+	err = bucket.Walk(context.Background(), "", func(objectInfo storage.ObjectInfo) error {
+		visited = append(visited, objectInfo.Path())
+		if objectInfo.Path() == "a.proto" {
+			// For example the temporary file of a concurrent atomic Put that is renamed.
+			return os.Remove(filepath.Join(dirPath, "b.proto"))
+		}
+		return nil
+	})
+	require.NoError(t, err)
+	require.Equal(t, []string{"a.proto", "c.proto"}, visited)
+}
